@@ -298,6 +298,8 @@ func cmdCheck(args []string) int {
 	var solverSecs float64
 	var mu sync.Mutex
 	preScripts := map[string]string{} // scripts of the V:pre guards (for a longer second try)
+	timeouts := map[int]int{}         // per target: obligations that ran into the solver cap
+	oblSem := make(chan struct{}, 6)  // obligations in flight (each races several solver processes)
 	nq := 0
 	for ti, r := range results {
 		for oi, o := range r.Obls {
@@ -355,6 +357,21 @@ func cmdCheck(args []string) int {
 			wg.Add(1)
 			go func(ti, oi int, o *Obligation, script, weak string) {
 				defer wg.Done()
+				oblSem <- struct{}{}
+				defer func() { <-oblSem }()
+				// quick tier: a target four of whose obligations already ran into the solver cap is not
+				// going to be decided; the rest of its obligations are reported undecided instead of
+				// each waiting for the cap (a changed function otherwise takes a quarter of an hour)
+				if *tier == "quick" && o.Class != "V" {
+					mu.Lock()
+					exhausted := timeouts[ti] >= 4
+					mu.Unlock()
+					if exhausted {
+						o.Status = "unknown"
+						o.Result = &SolveResult{Verdict: "unknown", Output: "not attempted: four obligations of this target already ran into the solver cap"}
+						return
+					}
+				}
 				to := timeout
 				if o.Class == "V" {
 					to, weak = 3, "" // reachability: only a refutation matters, and it is immediate when there is one
@@ -365,6 +382,9 @@ func cmdCheck(args []string) int {
 				res := Solve2(script, weak, smtDir, fmt.Sprintf("t%d_o%d", ti, oi), to)
 				mu.Lock()
 				solverSecs += res.Secs
+				if o.Class != "V" && res.Verdict != "unsat" && res.Verdict != "sat" && res.Secs >= float64(to)-1 {
+					timeouts[ti]++
+				}
 				mu.Unlock()
 				o.Result = &res
 				switch res.Verdict {
